@@ -652,8 +652,23 @@ func (c *simConn) Write(p []byte) (int, error) {
 	if h.wblock && !dl.IsZero() && h.written+int64(len(p)) > h.blockAfter {
 		// (a write without a deadline - SendReliable sets none - is let through: it would wait for
 		// the peer for ever, which is the caller's contract with the network, not a lifecycle defect)
-		// send buffer full, the peer does not read: block until the deadline or until closed
+		// send buffer full, the peer does not read: block until the deadline or until closed.
+		// As on a real socket the part that still fitted has been sent: the write reports partial
+		// progress together with the timeout, and the peer resumes reading afterwards (a caller that
+		// carries on with the connection gets its later writes through).
+		part := h.blockAfter - h.written
+		if part < 0 {
+			part = 0
+		}
+		if part > int64(len(p)) {
+			part = int64(len(p))
+		}
+		h.written += part
 		h.mu.Unlock()
+		if part > 0 {
+			c.push(h, append([]byte(nil), p[:part]...), wseq, false)
+			n.fault("stream_write_partial")
+		}
 		n.fault("stream_write_blocked")
 		var tc <-chan time.Time
 		if !dl.IsZero() {
@@ -663,9 +678,12 @@ func (c *simConn) Write(p []byte) (int, error) {
 		}
 		select {
 		case <-tc:
-			return 0, &net.OpError{Op: "write", Net: "tcp", Err: &timeoutErr{"write"}}
+			h.mu.Lock()
+			h.wblock = false
+			h.mu.Unlock()
+			return int(part), &net.OpError{Op: "write", Net: "tcp", Err: &timeoutErr{"write"}}
 		case <-c.closedCh:
-			return 0, io.ErrClosedPipe
+			return int(part), io.ErrClosedPipe
 		}
 	}
 	data := append([]byte(nil), p...)
